@@ -115,8 +115,9 @@ func (e *crashEngine) tornVariants(prev, next image) []image {
 		od, existed := prev.files[name]
 		if !existed {
 			// a file that appears non-empty between two points arrived by rename (atomic); files created by
-			// the store start empty at a point of their own
-			if len(nd) > 0 {
+			// the store start empty at a point of their own - except the chunk files of the legacy upgrade, which are
+			// created and filled between two points
+			if len(nd) > 0 && !strings.HasPrefix(next.point, "upgrade.") {
 				continue
 			}
 			od = nil
@@ -438,7 +439,7 @@ func (g *crashGen) Next(r *RNG, hist []Op) (Op, bool) {
 			return op, false
 		}
 		// views are not needed here; crash images are the observable
-		if op.Name == "view" || op.Name == "disk" || op.Name == "sizes" || op.Name == "paths" || op.Name == "badsnap" {
+		if op.Name == "view" || op.Name == "disk" || op.Name == "sizes" || op.Name == "paths" || op.Name == "badsnap" || op.Name == "chunks" || op.Name == "acct" {
 			continue
 		}
 		if g.c09 && op.Name == "open" {
